@@ -300,7 +300,7 @@ package leader
 //@   ensures result != nil
 
 //@ func (e *kvElection) logWithContext(ctx)
-//@   tags C09
+//@   tags C09 C04
 //@   flag pure
 
 //@ func (e *kvElection) getMetricsLabels()
@@ -1176,6 +1176,9 @@ package leader
 //@   on call becomeFollower set demote_cause = true
 //@   on ret becomeFollower as r set cleared = r.result
 //@   on load kvElection.onDemote as l set demoteSet = l.value != nil
+//@   ghost looked Bool = false
+//@   on load kvElection.isLeader set looked = true
+//@   ensures C11.failed_verification_consults_the_claim: looked
 //@   ensures C11.failed_verification_demotes: sawLeader ==> calls(becomeFollower) == 1 && (demoteSet ==> calls(onDemote) == 1)
 //@   ensures C11+C08.no_demotion_if_not_leader: !sawLeader ==> calls(becomeFollower) == 0 && calls(onDemote) == 0
 //@   ensures C08+C11.demote_iff_claim_cleared: calls(onDemote) == ((cleared && demoteSet) ? 1 : 0)
